@@ -7,7 +7,7 @@ import ast
 from .. import astq
 from ..cfg import CFG, Node, cfg_of
 from ..dataflow import ReachingDefs
-from ..fold import Folder, RegexConst, single_class
+from ..fold import Folder, RegexConst, classes_in, single_class
 from ..loader import AnalysisError, FuncInfo, dotted, norm, walk_no_nested
 from ..report import Ctx
 
@@ -403,7 +403,7 @@ def _input_stream(ctx: Ctx, RULE: str = "R9.6") -> None:
 
             cre = rx.parsed()
             items = list(cre)
-            digits_only = bool(rx.flags & re.A) and all(c in b"-0123456789" for cls in __import__("wzsa.fold", fromlist=["classes_in"]).classes_in(rx, 256) for c in cls)
+            digits_only = bool(rx.flags & re.A) and all(c in b"-0123456789" for cls in classes_in(rx, 256) for c in cls)
             raises_ve = any(astq.raised_name(r) == "ValueError" for r in astq.raises_of(pi.node))
             ok = digits_only and raises_ve
             fact = f"pattern {rx.pattern!r} flags={rx.flags}: ASCII digits only={digits_only}; raises ValueError on mismatch={raises_ve}"
